@@ -24,9 +24,9 @@ RULE = ("Cases: base configuration (tree, piece length, creator among all five, 
         "httpseeds, creation date. Non-trivial: the variant differs in at least one dimension and either the spelling differs or some "
         "directory has >= 2 entries (enumeration order observable). Distinct = distinct canonical case JSON.")
 ASSUMPTIONS = [
-    "no symlinks: lexical path spellings and kernel path resolution agree",
+    "path spellings are lexical variants of one real path (no symlinked parents); symlinks inside the tree are generated, and their dereferenced copy counts as the same payload only when the tool lists the same files for both",
     "the clock shim replaces the datetime class inside torrentfile modules and time.time; creation date itself is excluded from every comparison",
-    "output files are always written to an explicit path outside the payload",
+    "output files are written to an explicit path (outside the payload, or inside it under a name that does not exist while the payload is hashed)",
 ]
 BUDGET = {
     "quick": {"examples": 700, "workers": 8, "time_cap": 70},
